@@ -2,6 +2,7 @@ import P2sh.Model.Builtins
 import P2sh.Spec.Builtins
 import P2sh.Props.C08
 import P2sh.Props.C10
+import P2sh.Props.C10Float
 /-!
 # C11 — pure builtins: round-trip laws (on the model of `src/builtins/functions.rs`)
 
@@ -485,11 +486,154 @@ theorem contract_insert (args : List Val) (hk : MapKeysOK args) :
   · first | cell | (cases a <;> first | cell | (cases b <;> first | cell | (cases c <;> first | cell | (cases d <;> cell))))
 
 
-/-! ### str -/
+/-! ### str
 
-/-- `Spec.Builtins.display?` is a `partial def`, hence an opaque constant for the kernel: the rows
-`str(null | int | bool | array)` are proved relative to its agreement with the model's `display` -/
+`Spec.Builtins.display?` is structural (mutual with `displayList?`), so the texts it determines
+can be compared with the model's `Display`: the model prints every element followed by `", "`
+and trims the tail, the specification intercalates — they agree because no determined text ends
+in a blank or a comma (`GoodEnd`). -/
+
+/-- a text that ends in a character `trimTrail` keeps -/
+def GoodEnd (s : String) : Prop := ∃ l c, s.toList = l ++ [c] ∧ c ≠ ' ' ∧ c ≠ ','
+
+theorem goodEnd_append (a s : String) (h : GoodEnd s) : GoodEnd (a ++ s) := by
+  obtain ⟨l, c, e, h1, h2⟩ := h
+  exact ⟨a.toList ++ l, c, by rw [String.toList_append, e, List.append_assoc], h1, h2⟩
+
+theorem goodEnd_snoc (a : String) (t : String) (c : Char) (ht : t.toList = [c]) (h1 : c ≠ ' ') (h2 : c ≠ ',') :
+    GoodEnd (a ++ t) :=
+  ⟨a.toList, c, by rw [String.toList_append, ht], h1, h2⟩
+
+theorem trimTrail_goodEnd (s : String) (h : GoodEnd s) : trimTrail (s ++ ", ") = s := by
+  obtain ⟨l, c, e, h1, h2⟩ := h
+  apply String.toList_inj.mp
+  have hsep : ", ".toList = [',', ' '] := rfl
+  have hc : (c == ' ' || c == ',') = false := by simp [h1, h2]
+  simp only [trimTrail, String.toList_ofList, String.toList_append, e, hsep, List.reverse_append,
+    List.reverse_cons, List.reverse_nil, List.nil_append, List.cons_append, List.dropWhile_cons]
+  simp [hc]
+
+theorem trimTrail_empty : trimTrail "" = "" := by
+  apply String.toList_inj.mp
+  simp [trimTrail]
+
+/-- the model's `displayList` text: every part followed by `", "` -/
+def sepAll : List String → String
+  | [] => ""
+  | p :: ps => p ++ ", " ++ sepAll ps
+
+theorem sepAll_eq : ∀ (p : String) (ps : List String),
+    sepAll (p :: ps) = ", ".intercalate (p :: ps) ++ ", "
+  | p, [] => by simp [sepAll, String.intercalate_singleton]
+  | p, q :: ps => by
+    rw [String.intercalate_cons_cons, sepAll, sepAll_eq q ps]
+    simp [String.append_assoc]
+
+theorem goodEnd_intercalate : ∀ (p : String) (ps : List String), (∀ q ∈ p :: ps, GoodEnd q) →
+    GoodEnd (", ".intercalate (p :: ps))
+  | p, [], h => by rw [String.intercalate_singleton]; exact h p List.mem_cons_self
+  | p, q :: ps, h => by
+    rw [String.intercalate_cons_cons]
+    exact goodEnd_append _ _ (goodEnd_intercalate q ps (fun r hr => h r (List.mem_cons_of_mem _ hr)))
+
+theorem natDigits_digit (fuel : Nat) : ∀ n, ∀ c ∈ natDigits fuel n, c ≠ ' ' ∧ c ≠ ',' := by
+  have hd : ∀ d : Fin 10, digitChar d.val ≠ ' ' ∧ digitChar d.val ≠ ',' := by decide
+  induction fuel with
+  | zero => intro n c h; simp [natDigits] at h
+  | succ fuel ih =>
+    intro n c h
+    unfold natDigits at h
+    split at h
+    · rename_i h10
+      rw [List.mem_singleton] at h; subst h
+      exact hd ⟨n, h10⟩
+    · rw [List.mem_append, List.mem_singleton] at h
+      rcases h with h | h
+      · exact ih _ c h
+      · subst h; exact hd ⟨n % 10, by omega⟩
+
+theorem goodEnd_showNat (n : Nat) : GoodEnd (showNat n) := by
+  have hne := natDigits_ne_nil n n
+  have hm := natDigits_digit (n + 1) n
+  obtain ⟨l, c, e⟩ : ∃ l c, natDigits (n + 1) n = l ++ [c] :=
+    ⟨_, _, (List.dropLast_concat_getLast hne).symm⟩
+  have hc := hm c (by rw [e]; simp)
+  exact ⟨l, c, by simp [showNat, e], hc.1, hc.2⟩
+
+theorem goodEnd_decimal (i : Int) : GoodEnd (Spec.Builtins.decimal i) := by
+  show GoodEnd (toString i)
+  rw [← showInt_eq]
+  unfold showInt
+  split
+  · exact goodEnd_append _ _ (goodEnd_showNat _)
+  · exact goodEnd_showNat _
+
+mutual
+/-- wherever the specification determines the text of a value, the model's `Display` prints
+exactly that text (and it ends in a character that the array printer's trimming keeps) -/
+theorem display_agrees (v : Val) (s : String) (h : Spec.Builtins.display? v = some s) :
+    display v = some s ∧ GoodEnd s := by
+  cases v <;> simp only [Spec.Builtins.display?, Option.some.injEq, reduceCtorEq] at h
+  case null => subst h; exact ⟨rfl, ['n', 'u', 'l'], 'l', rfl, by decide, by decide⟩
+  case str t => subst h; exact ⟨rfl, goodEnd_snoc _ "\"" '"' rfl (by decide) (by decide)⟩
+  case char c => subst h; exact ⟨rfl, goodEnd_snoc _ "'" '\'' rfl (by decide) (by decide)⟩
+  case int i =>
+    subst h
+    refine ⟨?_, goodEnd_decimal _⟩
+    show some (showInt i.toInt) = some (toString i.toInt)
+    rw [showInt_eq]
+  case bool b =>
+    subst h
+    cases b
+    · exact ⟨rfl, ['f', 'a', 'l', 's'], 'e', rfl, by decide, by decide⟩
+    · exact ⟨rfl, ['t', 'r', 'u'], 'e', rfl, by decide, by decide⟩
+  case arr i xs =>
+    cases hp : Spec.Builtins.displayList? xs with
+    | none => rw [hp] at h; cases h
+    | some parts =>
+      rw [hp] at h
+      simp only [bind, Option.bind, pure, Option.some.injEq] at h
+      subst h
+      have ih := displayList_agrees xs parts hp
+      refine ⟨?_, goodEnd_snoc _ "]" ']' rfl (by decide) (by decide)⟩
+      simp only [display, ih.1, Option.map_some]
+      cases parts with
+      | nil => simp [sepAll, trimTrail_empty, String.intercalate_nil]
+      | cons p ps =>
+        rw [sepAll_eq, trimTrail_goodEnd _ (goodEnd_intercalate p ps ih.2)]
+theorem displayList_agrees (xs : List Val) (parts : List String)
+    (h : Spec.Builtins.displayList? xs = some parts) :
+    displayList xs = some (sepAll parts) ∧ ∀ p ∈ parts, GoodEnd p := by
+  match xs with
+  | [] =>
+    simp only [Spec.Builtins.displayList?, Option.some.injEq] at h
+    subst h
+    exact ⟨rfl, fun _ hp => by cases hp⟩
+  | x :: rest =>
+    simp only [Spec.Builtins.displayList?] at h
+    cases hx : Spec.Builtins.display? x with
+    | none => rw [hx] at h; cases h
+    | some a =>
+      cases hr : Spec.Builtins.displayList? rest with
+      | none => rw [hx, hr] at h; cases h
+      | some as =>
+        rw [hx, hr] at h
+        simp only [bind, Option.bind, pure, Option.some.injEq] at h
+        subst h
+        have i1 := display_agrees x a hx
+        have i2 := displayList_agrees rest as hr
+        refine ⟨?_, ?_⟩
+        · simp only [displayList, i1.1, i2.1, bind, Option.bind, pure, sepAll]
+        · intro p hp
+          rcases List.mem_cons.mp hp with rfl | hp
+          · exact i1.2
+          · exact i2.2 p hp
+end
+
+/-- the model's `display` yields every text the specification determines -/
 def DisplayAgrees (v : Val) : Prop := ∀ s, Spec.Builtins.display? v = some s → display v = some s
+
+theorem displayAgrees (v : Val) : DisplayAgrees v := fun s h => (display_agrees v s h).1
 
 theorem refines_display_okAny (v : Val) :
     Refines (match display v with | some s => .ok (.str s) | none => .unmodelled) .okAny := by
@@ -504,11 +648,11 @@ theorem refines_display (v : Val) (h : DisplayAgrees v) :
   | none => exact refines_display_okAny v
   | some s => rw [h s hs]; exact refines_val _
 
-theorem contract_str (args : List Val) (hd : ∀ v, args = [v] → DisplayAgrees v) :
+theorem contract_str (args : List Val) :
     Refines (call "str" args) (Spec.Builtins.call "str" args) := by
   rcases args with _ | ⟨a, _ | ⟨b, rest⟩⟩
   · cell
-  · have h := hd a rfl
+  · have h := displayAgrees a
     cases a
     case byte b =>
       show Refines (.ok (.str (showNat b.toNat))) (.value (.str (toString b.toNat)))
@@ -801,12 +945,10 @@ no panic where the documents are silent (including every name outside the table)
 
 Hypotheses (each names the rows it is about):
 * `hk`  — not one of the three known-finding rows (`knownFindingRow`);
-* `hd`  — `str` of null / integer / boolean / array: relative to `DisplayAgrees` (the spec's
-  `display?` is a `partial def`, opaque to the kernel);
-* `hm`  — `get` / `contains` / `insert` on a map: `MapKeysOK` (C10: equal keys hash alike). -/
+* `hm`  — `get` / `contains` / `insert` on a map: `MapKeysOK` (C10: equal keys hash alike);
+  discharged in `builtin_contract_final` by `C10.floatLaw`. -/
 theorem builtin_contract (name : String) (args : List Val)
     (hk : ¬ knownFindingRow name args)
-    (hd : name = "str" → ∀ v, args = [v] → DisplayAgrees v)
     (hm : name = "get" ∨ name = "contains" ∨ name = "insert" → MapKeysOK args) :
     Refines (call name args) (Spec.Builtins.call name args) := by
   by_cases hc : name ∈ covered
@@ -822,7 +964,7 @@ theorem builtin_contract (name : String) (args : List Val)
     · exact contract_get args (hm (.inl rfl))
     · exact contract_contains args (hm (.inr (.inl rfl)))
     · exact contract_insert args (hm (.inr (.inr rfl)))
-    · exact contract_str args (hd rfl)
+    · exact contract_str args
     · exact contract_int args
     · exact contract_is_error args
     · exact contract_float args
@@ -841,16 +983,25 @@ theorem builtin_contract (name : String) (args : List Val)
 
 /-- under the IEEE fact of C10 the map hypothesis is discharged -/
 theorem builtin_contract_of_law (law : C10.FloatLaw) (name : String) (args : List Val)
-    (hk : ¬ knownFindingRow name args) (hd : name = "str" → ∀ v, args = [v] → DisplayAgrees v) :
+    (hk : ¬ knownFindingRow name args) :
     Refines (call name args) (Spec.Builtins.call name args) :=
-  builtin_contract name args hk hd (fun _ => mapKeysOK_of_law law args)
+  builtin_contract name args hk (fun _ => mapKeysOK_of_law law args)
+
+/-- **the contract table, final form**: for every builtin name and every argument list, outside
+the three known-finding rows, the model refines the documented behaviour — no other hypothesis
+(`C10.floatLaw` is proved from Lean's model of `Float`) -/
+theorem builtin_contract_final (name : String) (args : List Val) (hk : ¬ knownFindingRow name args) :
+    Refines (call name args) (Spec.Builtins.call name args) :=
+  builtin_contract_of_law C10.floatLaw name args hk
 
 /-- non-vacuity of the table: a value row, a mutation row, an error row, a conversion row -/
 example : Refines (call "int" [.str "-12"]) (.value (.int (Int64.ofInt (-12)))) :=
-  builtin_contract "int" [.str "-12"]
+  builtin_contract_final "int" [.str "-12"]
     (by rintro (⟨h, -⟩ | ⟨h, -⟩) <;> exact absurd h (by decide))
-    (fun h => absurd h (by decide))
-    (fun h => by rcases h with h | h | h <;> exact absurd h (by decide))
+example : Refines (call "str" [.arr 0 [.int (-7), .str "a, ", .arr 1 [], .null]])
+    (Spec.Builtins.call "str" [.arr 0 [.int (-7), .str "a, ", .arr 1 [], .null]]) := contract_str _
+example : Spec.Builtins.display? (.arr 0 [.int (-7), .str "a, ", .arr 1 [], .null]) =
+    some "[-7, \"a, \", [], null]" := by decide +kernel
 example : Refines (call "push" [.arr 7 [.int 1], .null]) (.mutate .null (.arr 7 [.int 1, .null])) :=
   contract_push _
 example : Refines (call "len" [.int 1]) .error := contract_len _
